@@ -383,6 +383,11 @@ def combo_worker(job):
             # write_gvfs puts circRNA records into a file of their own (the last one)
             gen_ref.write_gvfs(case, allrecs, layout=[list(range(n_small)), [n_small]])
             files = list(case.gvfs)
+            if rng.random() < 0.5:
+                # every GVF with the byte-offset index indexGVF writes next to it
+                from .pipe_explore import index_gvf_files
+                index_gvf_files(case, files)
+                out['stats']['indexed_gvfs'] = 1
         kw = cv_explore.default_kw(rng, True, opts.get('exception'))
         kw['backsplicing_only'] = False
         canon = pipe.canonical_pool(case, **{k: v for k, v in kw.items() if k != 'backsplicing_only'})
